@@ -22,6 +22,10 @@ import numpy as np
 from .astutil import call_name, u
 from .inteval import NotEvaluable
 
+class DivisionByZero(NotEvaluable):
+    """A quotient whose divisor is zero at the evaluated point (0 / 0 = NaN in floating point): a finding, not a limit of the fragment."""
+
+
 IDENTITY_METHODS = {"float", "double", "long", "int", "to", "contiguous", "clone", "detach", "type_as", "cpu"}
 
 
@@ -53,7 +57,10 @@ def teval(e: ast.AST, env: dict, leaf: Optional[Callable] = None, depth: int = 0
         raise NotEvaluable("depth")
     t = u(e)
     if t in env:
-        return env[t]
+        v = env[t]
+        if type(v).__name__ == "_Poison":
+            raise NotEvaluable(f"`{t}` was bound to a value outside the fragment")
+        return v
     if leaf is not None:
         v = leaf(e)
         if v is not None:
@@ -100,9 +107,9 @@ def teval(e: ast.AST, env: dict, leaf: Optional[Callable] = None, depth: int = 0
             if isinstance(e.op, ast.Div):
                 if _is_arr(b):
                     if (b == 0).any():
-                        raise NotEvaluable("division by zero")
+                        raise DivisionByZero(t[:60])
                 elif b == 0:
-                    raise NotEvaluable("division by zero")
+                    raise DivisionByZero(t[:60])
                 fa = np.vectorize(Fraction, otypes=[object])(a) if _is_arr(a) else Fraction(a)
                 return fa / b
             if isinstance(e.op, ast.FloorDiv):
@@ -166,6 +173,9 @@ def teval(e: ast.AST, env: dict, leaf: Optional[Callable] = None, depth: int = 0
         if _is_arr(c):
             raise NotEvaluable("tensor as a condition")
         return ev(e.body if c else e.orelse)
+    if isinstance(e, ast.Attribute) and isinstance(e.value, ast.Name) and e.value.id == "torch" and e.attr in (
+            "long", "int", "int64", "int32", "float", "float32", "float64", "double", "bool", "half", "uint8", "int8", "int16"):
+        return f"<torch.{e.attr}>"
     if isinstance(e, ast.Attribute):
         base = ev(e.value)
         if _is_arr(base):
@@ -292,6 +302,28 @@ def _call(c: ast.Call, ev, t: str):
             return a.dot(b) if a.ndim <= 2 and b.ndim <= 2 else np.matmul(a, b)
         except (ValueError, TypeError):
             raise NotEvaluable("matmul shapes")
+    if name in ("torch.full", "torch.empty", "torch.zeros", "torch.ones") and c.args:
+        shape = ev(c.args[0])
+        rest = c.args[1:]
+        if not isinstance(shape, tuple):
+            # torch.zeros(2, 3) form
+            shape = tuple(ev(a) for a in c.args) if name != "torch.full" else None
+            rest = []
+        if shape is None:
+            raise NotEvaluable("torch.full shape")
+        shape = tuple(_int(s_) for s_ in shape)
+        if name == "torch.full":
+            fill = ev(rest[0]) if rest else next((ev(k.value) for k in c.keywords if k.arg == "fill_value"), None)
+            if fill is None or _is_arr(fill):
+                raise NotEvaluable("torch.full fill")
+        else:
+            fill = 1 if name == "torch.ones" else 0
+        dt = next((ev(k.value) for k in c.keywords if k.arg == "dtype"), None)
+        out = np.empty(shape, dtype=object)
+        out[...] = Fraction(fill) if not isinstance(fill, bool) else Fraction(int(fill))
+        if dt == "<torch.bool>":
+            return out != 0
+        return out
     if name == "torch.arange" and 1 <= len(c.args) <= 3:
         return frac_array(list(range(*[_int(ev(a)) for a in c.args])))
     if name in ("max", "min") and c.args and not c.keywords:
